@@ -6,9 +6,13 @@
      - an mpt++ object as value source of a NAMED property (its convert() hands out a colour),
      - layout::graph: add_axis / add_world, items of the group (create + append), bind() driven by the "axes" /
        "worlds" properties, update_transform / transform_flags,
-     - class layout: properties alias (name) and font.
-   The class layout is modelled AS PATCHED by docs/c20_proposed_layout_object.diff (its cases are generated only
-   when the tree contains the patch). *)
+     - class layout: properties alias (name) and font,
+     - object::set(const object &) (every property of another object by value: inheritance of layout items, graphs made
+       from plain graph data), text::set(metatype &), the whole-object query (property "") and the query without record,
+       the cycles of the bound worlds, the limits the transformation takes from the bound axes,
+       mpt_lattr_set (mptplot/layout/lattr_set.c).
+   AS PATCHED: graph::cycle / set_cycle refuse a position behind the bound worlds (docs/C20_cycle_range.diff); the
+   whole-object query compares the members only (docs/C20_total_padding.diff). *)
 Require Import List String Ascii NArith ZArith Bool.
 Import ListNotations.
 From MptV Require Import C20.LayoutTypes C20.LayoutConv C20.Gen_Layout C20.LayoutModel.
@@ -102,17 +106,119 @@ Definition cxx_cset (o : anyobj) (w : cwhich) (t : option bytes) : option (bool 
   | _, _ => None
   end.
 
+(* ---- mpt_lattr_set(attr, width, style, symbol, size) ---- *)
+Definition lattr_set4 (a : lattr) (w st sy sz : Z) : sres * lattr :=
+  if (LineWidthMax <? w) || (LineStyleMax <? st) || (SymbolTypeMax <? sy) || (SymbolSizeMax <? sz) then (SFail BadValue, a)
+  else (SOk, mklattr (if 0 <=? st then st else 1) (if 0 <=? w then w else 1) (if 0 <=? sy then sy else 0) (if 0 <=? sz then sz else 10)).
+
+(* ---- the whole-object query (property ""): 1 when a member differs from the default object (AS PATCHED: members,
+   not the padding of the struct) ---- *)
+Definition col_eqb (a b : color) : bool := N.eqb (c_a a) (c_a b) && N.eqb (c_r a) (c_r b) && N.eqb (c_g a) (c_g b) && N.eqb (c_b a) (c_b b).
+Definition lat_eqb (a b : lattr) : bool :=
+  Z.eqb (la_style a) (la_style b) && Z.eqb (la_width a) (la_width b) && Z.eqb (la_symbol a) (la_symbol b) && Z.eqb (la_size a) (la_size b).
+(* string members: the default holds no string, a string that is set never has the default's (null) pointer *)
+Definition str_unset (s : option bytes) : bool := match s with None => true | Some _ => false end.
+Definition obj_is_default (o : anyobj) : bool :=
+  match o with
+  | OAxis x => str_unset (ax_title x) && N.eqb (ax_begin x) (ax_begin def_axis) && N.eqb (ax_end x) (ax_end def_axis)
+               && N.eqb (ax_tlen x) (ax_tlen def_axis) && Z.eqb (ax_exp x) 0 && Z.eqb (ax_intv x) 0 && Z.eqb (ax_sub x) 0
+               && Z.eqb (ax_format x) 0 && Z.eqb (ax_dec x) 0 && Z.eqb (ax_lpos x) 0 && Z.eqb (ax_tpos x) 0
+  | OLine x => col_eqb (li_color x) col_black && lat_eqb (li_attr x) def_lattr && N.eqb (li_fx x) 0 && N.eqb (li_fy x) 0
+               && N.eqb (li_tx x) 0 && N.eqb (li_ty x) 0
+  | OText x => str_unset (tx_value x) && str_unset (tx_font x) && col_eqb (tx_color x) col_black && Z.eqb (tx_size x) (tx_size def_text)
+               && Z.eqb (tx_weight x) (tx_weight def_text) && Z.eqb (tx_style x) (tx_style def_text) && Z.eqb (tx_align x) (tx_align def_text)
+               && N.eqb (tx_px x) (tx_px def_text) && N.eqb (tx_py x) (tx_py def_text) && N.eqb (tx_angle x) 0
+  | OGraph x => str_unset (gr_axes x) && str_unset (gr_worlds x) && col_eqb (gr_fg x) col_black && col_eqb (gr_bg x) (gr_bg def_graph)
+                && N.eqb (gr_px x) 0 && N.eqb (gr_py x) 0 && N.eqb (gr_sx x) (gr_sx def_graph) && N.eqb (gr_sy x) (gr_sy def_graph)
+                && Z.eqb (gr_grid x) 0 && Z.eqb (gr_align x) 0 && Z.eqb (gr_frame x) 0 && Z.eqb (gr_clip x) 0 && Z.eqb (gr_lpos x) 0
+  | OWorld x => str_unset (wl_alias x) && col_eqb (wl_color x) col_black && lat_eqb (wl_attr x) def_lattr && Z.eqb (wl_cyc x) 0
+  end.
+Definition kind_name (o : anyobj) : bytes :=
+  match o with OAxis _ => bs "axis" | OLine _ => bs "line" | OText _ => bs "text" | OGraph _ => bs "graph" | OWorld _ => bs "world" end.
+Definition obj_total (o : anyobj) : pent := mkpent (kind_name o) (TBadType 0) PNone (if obj_is_default o then 0 else 1).
+
+(* ---- object::set(const object &from, logger): every property of the other object, in the order of its table, by
+   value: a string through mpt_object_set_string, everything else through mpt_object_set_value.  With a logger a
+   refused property is reported and the copy goes on, without one it stops there.  The result is the count
+   mpt_object_foreach returns (properties - 1, or -1 after a stop) converted to bool. ---- *)
+Definition src_of_pent (e : pent) : option source :=
+  match pe_type e, pe_val e with
+  | TStr, PStr s => Some (SText (Some (match s with Some t => t | None => [] end)) no_torc)
+  | TF64, PF64 b => Some (SValue (VD b None))
+  | TF32, PF32 b => Some (SValue (VF b 0))
+  | TI16, PInt z => Some (SValue (VI 110 z 0 0))
+  | TU8, PInt z => Some (SValue (VI 121 z 0 0))
+  | TU32, PInt z => Some (SValue (VI 117 z 0 0))
+  | TChr, PChr z => Some (SValue (VC z))
+  | TColor, PCol a r g b => Some (SValue (VCol a r g b))
+  | TFpoint, PPt x y => Some (SValue (VPt x y))
+  | _, _ => None
+  end.
+Fixpoint copy_props (log : bool) (es : list pent) (tg : anyobj) (n : Z) : Z * anyobj :=
+  match es with
+  | [] => (n - 1, tg)
+  | e :: r =>
+    match src_of_pent e with
+    | None => if log then copy_props log r tg (n + 1) else (-1, tg)
+    | Some s =>
+      match cxx_set_property tg (Some (pe_name e)) (Some s) with
+      | (SOk, tg') => copy_props log r tg' (n + 1)
+      | (SFail _, tg') => if log then copy_props log r tg' (n + 1) else (-1, tg')
+      end
+    end
+  end.
+Definition object_set_from (log : bool) (tg src : anyobj) : bool * anyobj :=
+  let '(r, tg') := copy_props log (obj_listed src) tg 0 in (negb (r =? 0), tg').
+
+(* ---- a text metatype (the value of a parsed configuration node, mpt_meta_new) as source: it answers the character
+   vector request with its text and the terminating NUL, and 's' with the text (a null pointer when empty), nothing else.
+   mpt_string_pset takes the vector; every other conversion sees a plain 's' value. ---- *)
+Definition meta_string (t : bytes) : option bytes := string_set (Some (app t [0%N])) (Some (S (List.length t))).
+Definition meta_value (t : bytes) : source := SValue (VS (match t with [] => None | _ => Some t end)).
+Definition is_str_field (o : anyobj) (n : bytes) : bool :=
+  match o with
+  | OAxis _ => match axis_field_of n with Some AxTitle => true | _ => false end
+  | OLine _ => false
+  | OText _ => match text_field_of n with Some TxValue | Some TxFont => true | _ => false end
+  | OGraph _ => match graph_field_of n with Some GrAxes | Some GrWorlds => true | _ => false end
+  | OWorld _ => match world_field_of n with Some WlAlias => true | _ => false end
+  end.
+Definition put_str_field (o : anyobj) (n : bytes) (v : option bytes) : anyobj :=
+  match o with
+  | OAxis x => OAxis (set_ax_title v x)
+  | OLine x => OLine x
+  | OText x => match text_field_of n with Some TxFont => OText (set_tx_font v x) | _ => OText (set_tx_value v x) end
+  | OGraph x => match graph_field_of n with Some GrWorlds => OGraph (set_gr_worlds v x) | _ => OGraph (set_gr_axes v x) end
+  | OWorld x => OWorld (set_wl_alias v x)
+  end.
+(* set_property(name, metatype) for a named property (name not empty) *)
+Definition meta_set (o : anyobj) (n : bytes) (t : bytes) : sres * anyobj :=
+  if is_str_field o n then (SOk, put_str_field o n (meta_string t))
+  else cxx_set_property o (Some n) (Some (meta_value t)).
+
 (* ---- layout::graph: bound axes / worlds, items, transformation ---- *)
-Inductive gitem := GIAxis (o : axis) | GIWorld (o : world) | GIOther.
-Record gextra := mkgx { gx_items : list (option bytes * gitem);
+Inductive gitem := GIAxis (o : axis) | GIWorld (o : world) | GILine (o : line) | GIText (o : text) | GIGraph (o : graph).
+Definition gi_obj (it : gitem) : anyobj :=
+  match it with GIAxis x => OAxis x | GIWorld x => OWorld x | GILine x => OLine x | GIText x => OText x | GIGraph x => OGraph x end.
+Definition gi_of (o : anyobj) : gitem :=
+  match o with OAxis x => GIAxis x | OWorld x => GIWorld x | OLine x => GILine x | OText x => GIText x | OGraph x => GIGraph x end.
+Definition items_t := list (option bytes * gitem).
+(* gx_lim: limits (min, max) of the three dimensions of the transformation, gx_cyc: per bound world the stage count of
+   its cycle once one exists *)
+Record gextra := mkgx { gx_items : items_t;
                         gx_axes : list (option bytes * axis); gx_worlds : list (option bytes * world);
-                        gx_tr : bool }.
-Definition gx_empty := mkgx [] [] [] false.
+                        gx_tr : bool; gx_lim : list (N * N); gx_cyc : list (option Z) }.
+Definition DBL_MIN : N := 4503599627370496%N.
+Definition DBL_MAX : N := 9218868437227405311%N.
+Definition lim0 : list (N * N) := [(DBL_MIN, DBL_MAX); (DBL_MIN, DBL_MAX); (DBL_MIN, DBL_MAX)].
+Definition gx_empty := mkgx [] [] [] false lim0 [].
 
 (* item_group::create(type) *)
 Definition typed_axis (f : Z) : axis := set_ax_format (Z.land f 3) def_axis.
 Definition create_item (ty : bytes) : option gitem :=
-  if eqs ty "line" || eqs ty "text" || eqs ty "graph" then Some GIOther
+  if eqs ty "line" then Some (GILine def_line)
+  else if eqs ty "text" then Some (GIText def_text)
+  else if eqs ty "graph" then Some (GIGraph def_graph)
   else if eqs ty "world" then Some (GIWorld def_world)
   else if eqs ty "axis" then Some (GIAxis def_axis)
   else if eqs ty "xaxis" then Some (GIAxis (typed_axis 1))
@@ -123,12 +229,7 @@ Definition create_item (ty : bytes) : option gitem :=
 Definition item_assign (it : gitem) (prop : option bytes) (s : source) : gitem :=
   match prop with
   | None => it
-  | Some p =>
-    match it with
-    | GIAxis x => GIAxis (snd (axis_set x (Some p) (Some s)))
-    | GIWorld x => GIWorld (snd (world_set x (Some p) (Some s)))
-    | GIOther => GIOther
-    end
+  | Some p => gi_of (snd (cxx_set_property (gi_obj it) (Some p) (Some s)))
   end.
 
 (* words of a name list (mpt_convert_key without separators: white space delimited) *)
@@ -144,54 +245,122 @@ Fixpoint words_fuel (fuel : nat) (t : bytes) : list bytes :=
 Definition words (t : bytes) : list bytes := words_fuel (S (List.length t)) t.
 
 Definition name_is (n : option bytes) (w : bytes) : bool := match n with Some x => beq x w | None => false end.
-Fixpoint find_axis (items : list (option bytes * gitem)) (w : bytes) : option axis :=
+(* collection::relation::find: a name is split at the first '.'; item_group hands out no nested collection, so only a
+   name without a rest behind the '.' can be found (the item named by the part before it) *)
+Fixpoint split_dot (w : bytes) : bytes * option bytes :=
+  match w with
+  | [] => ([], None)
+  | c :: r => if N.eqb c 46 then ([], Some r) else let '(p, q) := split_dot r in (c :: p, q)
+  end.
+Definition find_key (w : bytes) : option bytes :=
+  match split_dot w with (p, None) => Some p | (p, Some []) => Some p | _ => None end.
+(* the name a found item is bound under: the part behind the last ':' *)
+Fixpoint last_seg (w : bytes) : bytes :=
+  match w with
+  | [] => []
+  | c :: r => if existsb (N.eqb 58) r then last_seg r else if N.eqb c 58 then r else c :: r
+  end.
+Fixpoint find_axis (items : items_t) (w : bytes) : option axis :=
   match items with
   | [] => None
   | (n, GIAxis x) :: r => if name_is n w then Some x else find_axis r w
   | _ :: r => find_axis r w
   end.
-Fixpoint find_world (items : list (option bytes * gitem)) (w : bytes) : option world :=
+Fixpoint find_world (items : items_t) (w : bytes) : option world :=
   match items with
   | [] => None
   | (n, GIWorld x) :: r => if name_is n w then Some x else find_world r w
   | _ :: r => find_world r w
   end.
+(* search through the levels of a relation (the own items first, then the parents') *)
+Fixpoint find_chain {A} (f : items_t -> bytes -> option A) (chain : list items_t) (w : bytes) : option A :=
+  match chain with
+  | [] => None
+  | l :: r => match f l w with Some x => Some x | None => find_chain f r w end
+  end.
+Definition find_rel {A} (f : items_t -> bytes -> option A) (chain : list items_t) (w : bytes) : option A :=
+  match find_key w with Some p => find_chain f chain p | None => None end.
 Fixpoint bind_names {A} (find : bytes -> option A) (ws : list bytes) : option (list (option bytes * A)) :=
   match ws with
   | [] => Some []
   | w :: r => match find w, bind_names find r with
-              | Some x, Some l => Some ((Some w, x) :: l)
+              | Some x, Some l => Some ((Some (last_seg w), x) :: l)
               | _, _ => None
               end
   end.
-Definition all_axes (items : list (option bytes * gitem)) : list (option bytes * axis) :=
+Definition all_axes (items : items_t) : list (option bytes * axis) :=
   flat_map (fun it => match it with (n, GIAxis x) => [(n, x)] | _ => [] end) items.
-Definition all_worlds (items : list (option bytes * gitem)) : list (option bytes * world) :=
+Definition all_worlds (items : items_t) : list (option bytes * world) :=
   flat_map (fun it => match it with (n, GIWorld x) => [(n, x)] | _ => [] end) items.
+(* a graph among the items is bound in turn; it has no items of its own here, so its bind succeeds when every name of
+   its "axes" / "worlds" lists is found through the relation *)
+Definition names_found {A} (f : items_t -> bytes -> option A) (names : option bytes) (chain : list items_t) : bool :=
+  match names with
+  | None => true
+  | Some t => forallb (fun w => match find_rel f chain w with Some _ => true | None => false end) (words t)
+  end.
+Definition sub_bind_ok (sg : graph) (chain : list items_t) : bool :=
+  names_found find_axis (gr_axes sg) chain && names_found find_world (gr_worlds sg) chain.
 
-(* layout::graph::bind(0, 0): Ok 1 or the error, new bound lists (restored on failure) *)
-Definition graph_bind (g : graph) (x : gextra) : Z * gextra :=
+(* layout::graph::bind(rel, out): chain = the levels rel searches (without rel: the graph's own items).
+   Ok 1 or the error, new bound lists (restored on failure); new world bindings have no cycle yet *)
+Definition graph_bind_rel (g : graph) (x : gextra) (chain : list items_t) : Z * gextra :=
   let ax := match gr_axes g with
             | None => Some (all_axes (gx_items x))
-            | Some names => bind_names (find_axis (gx_items x)) (words names)
+            | Some names => bind_names (find_rel find_axis chain) (words names)
             end in
   match ax with
   | None => (- MissingData, x)
   | Some al =>
     let wl := match gr_worlds g with
               | None => Some (all_worlds (gx_items x))
-              | Some names => bind_names (find_world (gx_items x)) (words names)
+              | Some names => bind_names (find_rel find_world chain) (words names)
               end in
     match wl with
     | None => (- MissingData, x)
-    | Some wl' => (1, mkgx (gx_items x) al wl' (gx_tr x))
+    | Some wl' =>
+      if forallb (fun it => match snd it with GIGraph sg => sub_bind_ok sg chain | _ => true end) (gx_items x)
+      then (1, mkgx (gx_items x) al wl' (gx_tr x) (gx_lim x) (map (fun _ => None) wl'))
+      else (- MissingData, x)
     end
   end.
+Definition graph_bind (g : graph) (x : gextra) : Z * gextra := graph_bind_rel g x [gx_items x].
+
 (* update_transform(): a transformation exists from the first call that finds an axis in one of the three
-   dimensions; transform_flags then reports the dimension styles 1 2 3 *)
+   dimensions; transform_flags then reports the dimension styles 1 2 3.  The limits of a dimension are taken from its
+   axis only when begin > end (swapped) or when the axis is logarithmic; otherwise they stay as they are. *)
+Definition f64_nan (b : N) : bool := (N.eqb ((b / 4503599627370496) mod 2048) 2047 && negb (N.eqb (b mod 4503599627370496) 0))%N.
+Definition f64_key (b : N) : Z := let m := Z.of_N (b mod 9223372036854775808) in if (b <? 9223372036854775808)%N then m else - m.
+Definition f64_lt (a b : N) : bool := negb (f64_nan a) && negb (f64_nan b) && (f64_key a <? f64_key b).
+Definition upd_dim (a : axis) (l : N * N) : N * N :=
+  let l1 := if f64_lt (ax_end a) (ax_begin a) then (ax_end a, ax_begin a) else l in
+  if axis_lg a then (ax_begin a, ax_end a) else l1.
+Fixpoint upd_lims (ax : list (option bytes * axis)) (l : list (N * N)) : list (N * N) :=
+  match l with
+  | [] => []
+  | d :: r => match ax with
+              | [] => d :: r
+              | (_, a) :: ar => upd_dim a d :: upd_lims ar r
+              end
+  end.
 Definition graph_touch_tr (x : gextra) : gextra :=
-  mkgx (gx_items x) (gx_axes x) (gx_worlds x) (gx_tr x || match gx_axes x with [] => false | _ => true end).
+  match gx_axes x with
+  | [] => x
+  | _ => mkgx (gx_items x) (gx_axes x) (gx_worlds x) true (upd_lims (gx_axes x) (gx_lim x)) (gx_cyc x)
+  end.
 Definition tr_flags (x : gextra) : list Z := if gx_tr x then [1; 2; 3] else [0; 0; 0].
+
+(* the cycle of the bound world at a position (negative: from the end); AS PATCHED a position behind the last world
+   is refused *)
+Definition cyc_index (n : nat) (pos : Z) : option nat :=
+  if pos <? 0 then (if pos + Z.of_nat n <? 0 then None else Some (Z.to_nat (pos + Z.of_nat n)))
+  else if pos <? Z.of_nat n then Some (Z.to_nat pos) else None.
+Fixpoint set_nth {A} (l : list A) (i : nat) (v : A) : list A :=
+  match l, i with
+  | [], _ => []
+  | _ :: r, O => v :: r
+  | a :: r, S j => a :: set_nth r j v
+  end.
 
 (* ---- class layout (as patched): properties alias (also "name") and font ---- *)
 Record layoutobj := mklay { ly_alias : option bytes; ly_font : option bytes }.
@@ -252,14 +421,28 @@ Inductive xop :=
 | XGadd (tb : bool) (isaxis : bool) (name : option bytes)
 | XGitem (tb : bool) (ty : bytes) (name : option bytes) (prop : option bytes) (t : option bytes) (o : torc)
 | XGbind (tb : bool)
-| XGtr (tb : bool).
+| XGtr (tb : bool)
+| XGbindl (tb : bool)                                             (* bind(0, logger) *)
+| XGbindo (tb : bool)                                             (* bind(relation over the other graph's items, logger) *)
+| XGview (tb : bool)
+| XGcyc (tb : bool) (pos : Z)
+| XGscyc (tb : bool) (pos : Z)
+| XOset (tb : bool) (log : bool)                                  (* object::set(other object, logger) *)
+| XTmeta (tb : bool) (t : option bytes)                           (* text::set(metatype &) *)
+| XTot (tb : bool)                                                (* the whole-object query: property "" *)
+| XPinfo (tb : bool) (cxx : bool).                                (* the query without property record *)
 
-Inductive ghead := GhK | GhR | GhKn (n : Z) | GhE (e : Z) | GhT (flags : list Z).
+Inductive ghead := GhK | GhR | GhKn (n : Z) | GhE (e : Z)
+                 | GhT (flags : list Z) (upd0 : bool) (lims : option (list (N * N))).
 Inductive xres :=
 | XRtok (t : rtok)
 | XBool (b : bool)
 | XConvR (r : cret) (p : cpay)
 | XGraphR (h : ghead) (ax : list (option bytes * axis)) (wl : list (option bytes * world))
+| XViewR (items : list (option bytes * anyobj)) (ax : list (option bytes * axis)) (wl : list (option bytes * world))
+| XCycR (stages : option Z)
+| XTotR (e : pent)
+| XPinfoR (me : bool)
 | XUnsup.
 
 Record xstate := mkxs { xa : anyobj; xb : anyobj; xga : gextra; xgb : gextra }.
@@ -288,7 +471,7 @@ Definition xstep (st : xstate) (p : xop) : xstate * xres :=
   | XClone tb =>
     (* layout::graph::clone() copies the transformation and the bound axes / worlds, not the items of the group *)
     let gx := if tb then xgb st else xga st in
-    (upd_t st tb (if tb then xb st else xa st) (mkgx [] (gx_axes gx) (gx_worlds gx) (gx_tr gx)), XRtok RK)
+    (upd_t st tb (if tb then xb st else xa st) (mkgx [] (gx_axes gx) (gx_worlds gx) (gx_tr gx) (gx_lim gx) (gx_cyc gx)), XRtok RK)
   | XCpy tb =>
     (* struct level copy (copy constructor + operator= of ::mpt::axis ..): the C struct members only *)
     (upd_t st tb (if tb then xa st else xb st) (if tb then xgb st else xga st), XRtok RK)
@@ -303,8 +486,8 @@ Definition xstep (st : xstate) (p : xop) : xstate * xres :=
     match (if tb then xb st else xa st) with
     | OGraph g =>
       let gx := if tb then xgb st else xga st in
-      let gx' := if isaxis then mkgx (gx_items gx) (app (gx_axes gx) [(name, def_axis)]) (gx_worlds gx) (gx_tr gx)
-                 else mkgx (gx_items gx) (gx_axes gx) (app (gx_worlds gx) [(name, def_world)]) (gx_tr gx) in
+      let gx' := if isaxis then mkgx (gx_items gx) (app (gx_axes gx) [(name, def_axis)]) (gx_worlds gx) (gx_tr gx) (gx_lim gx) (gx_cyc gx)
+                 else mkgx (gx_items gx) (gx_axes gx) (app (gx_worlds gx) [(name, def_world)]) (gx_tr gx) (gx_lim gx) (app (gx_cyc gx) [None]) in
       (upd_t st tb (OGraph g) gx', XGraphR GhK (gx_axes gx') (gx_worlds gx'))
     | _ => (st, XUnsup)
     end
@@ -316,7 +499,7 @@ Definition xstep (st : xstate) (p : xop) : xstate * xres :=
       | None => (st, XGraphR GhR (gx_axes gx) (gx_worlds gx))
       | Some it =>
         let it' := item_assign it prop (SText t o) in
-        let gx' := mkgx (app (gx_items gx) [(name, it')]) (gx_axes gx) (gx_worlds gx) (gx_tr gx) in
+        let gx' := mkgx (app (gx_items gx) [(name, it')]) (gx_axes gx) (gx_worlds gx) (gx_tr gx) (gx_lim gx) (gx_cyc gx) in
         (upd_t st tb (OGraph g) gx', XGraphR (GhKn (Z.of_nat (List.length (gx_items gx')))) (gx_axes gx') (gx_worlds gx'))
       end
     | _ => (st, XUnsup)
@@ -333,9 +516,80 @@ Definition xstep (st : xstate) (p : xop) : xstate * xres :=
     match (if tb then xb st else xa st) with
     | OGraph g =>
       let gx := graph_touch_tr (if tb then xgb st else xga st) in
-      (upd_t st tb (OGraph g) gx, XGraphR (GhT (tr_flags gx)) (gx_axes gx) (gx_worlds gx))
+      (upd_t st tb (OGraph g) gx,
+       XGraphR (GhT (tr_flags gx) (match gx_axes gx with [] => false | _ => true end) (if gx_tr gx then Some (gx_lim gx) else None))
+               (gx_axes gx) (gx_worlds gx))
     | _ => (st, XUnsup)
     end
+  | XGbindl tb =>
+    match (if tb then xb st else xa st) with
+    | OGraph g =>
+      let gx := if tb then xgb st else xga st in
+      let '(r, gx') := graph_bind g gx in
+      (upd_t st tb (OGraph g) gx', XGraphR (if r <? 0 then GhE (- r) else GhKn r) (gx_axes gx') (gx_worlds gx'))
+    | _ => (st, XUnsup)
+    end
+  | XGbindo tb =>
+    match (if tb then xb st else xa st) with
+    | OGraph g =>
+      let gx := if tb then xgb st else xga st in
+      let '(r, gx') := graph_bind_rel g gx [gx_items (if tb then xga st else xgb st)] in
+      (upd_t st tb (OGraph g) gx', XGraphR (if r <? 0 then GhE (- r) else GhKn r) (gx_axes gx') (gx_worlds gx'))
+    | _ => (st, XUnsup)
+    end
+  | XGview tb =>
+    match (if tb then xb st else xa st) with
+    | OGraph g =>
+      let gx := if tb then xgb st else xga st in
+      (st, XViewR (map (fun it => (fst it, gi_obj (snd it))) (gx_items gx)) (gx_axes gx) (gx_worlds gx))
+    | _ => (st, XUnsup)
+    end
+  | XGcyc tb pos =>
+    match (if tb then xb st else xa st) with
+    | OGraph g =>
+      let gx := if tb then xgb st else xga st in
+      match cyc_index (List.length (gx_worlds gx)) pos with
+      | None => (st, XCycR None)
+      | Some i =>
+        match nth i (gx_cyc gx) None with
+        | Some n => (st, XCycR (Some n))
+        | None =>
+          (* created on demand: limit_stages(cycles of the world) *)
+          let n := match nth_error (gx_worlds gx) i with Some (_, w) => wl_cyc w | None => 0 end in
+          (upd_t st tb (OGraph g) (mkgx (gx_items gx) (gx_axes gx) (gx_worlds gx) (gx_tr gx) (gx_lim gx) (set_nth (gx_cyc gx) i (Some n))),
+           XCycR (Some n))
+        end
+      end
+    | _ => (st, XUnsup)
+    end
+  | XGscyc tb pos =>
+    match (if tb then xb st else xa st) with
+    | OGraph g =>
+      let gx := if tb then xgb st else xga st in
+      match cyc_index (List.length (gx_worlds gx)) pos with
+      | None => (st, XBool false)
+      | Some i =>
+        (upd_t st tb (OGraph g) (mkgx (gx_items gx) (gx_axes gx) (gx_worlds gx) (gx_tr gx) (gx_lim gx) (set_nth (gx_cyc gx) i (Some 0))),
+         XBool true)
+      end
+    | _ => (st, XUnsup)
+    end
+  | XOset tb log =>
+    let tg := if tb then xb st else xa st in
+    let ot := if tb then xa st else xb st in
+    let gx := if tb then xgb st else xga st in
+    let '(r, tg') := object_set_from log tg ot in
+    (* layout::graph::set_property refreshes the transformation after every accepted assignment *)
+    (upd_t st tb tg' (match tg with OGraph _ => graph_touch_tr gx | _ => gx end), XBool r)
+  | XTmeta tb t =>
+    match (if tb then xb st else xa st) with
+    | OText x =>
+      (upd_t st tb (OText (set_tx_value (meta_string (match t with Some b => b | None => [] end)) x)) (if tb then xgb st else xga st),
+       XRtok RK)
+    | _ => (st, XUnsup)
+    end
+  | XTot tb => (st, XTotR (obj_total (if tb then xb st else xa st)))
+  | XPinfo tb cxx => (st, XPinfoR (match (if tb then xb st else xa st) with OGraph _ => cxx | _ => false end))
   end.
 
 Definition xout := (xres * list pent * list pent)%type.
@@ -371,6 +625,16 @@ Definition lstep (st : layoutobj * layoutobj) (p : xop) : (layoutobj * layoutobj
     ((if tb then (a, mklay (ly_alias b) v) else (mklay (ly_alias a) v, b)), XBool true)
   | XLreset tb => ((if tb then (a, def_layout) else (def_layout, b)), XBool true)
   | XConv tb q => let '(r, pl) := layout_convert q in (st, XConvR r pl)
+  | XTot tb => (st, XTotR (mkpent (bs "layout") TStr (PStr (ly_alias (if tb then b else a))) 0))
+  | XPinfo tb _ => (st, XPinfoR true)
+  | XOset tb _ =>
+    (* object::set(other layout): alias and font as strings through mpt_object_set_string; two properties: count 1 *)
+    let tg := if tb then b else a in
+    let ot := if tb then a else b in
+    let str (v : option bytes) := Some (SText (Some (match v with Some t => t | None => [] end)) no_torc) in
+    let t1 := snd (layout_set tg (Some (bs "alias")) (str (ly_alias ot))) in
+    let t2 := snd (layout_set t1 (Some (bs "font")) (str (ly_font ot))) in
+    ((if tb then (a, t2) else (t2, b)), XBool true)
   | _ => (st, XUnsup)
   end.
 Fixpoint lrun (st : layoutobj * layoutobj) (ops : list xop) : list xout :=
